@@ -22,6 +22,7 @@ func init() {
 	vk.Register("C12", "lisexh", runC12Seq)
 	vk.Register("C12", "lisrand", runC12Seq)
 	vk.Register("C12", "lisbig", runC12Seq)
+	vk.Register("C12", "conc", runConcSeq)
 	vk.Register("C12", "lcsexh", runC12LCS)
 	vk.Register("C12", "lcsrand", runC12LCS)
 	vk.Register("C17", "exh", runC17)
@@ -812,6 +813,13 @@ func TestC11Alias(t *testing.T) {
 // C12: LCS.
 
 func genLCSCase(t *rapid.T) LCSCase {
+	if vk.Rare(t, "tolerance", 12) {
+		// values a step of 1 or 2 apart, with adjacent related pairs: |a-b| <= 1 is not transitive
+		n, m := rapid.IntRange(0, 12).Draw(t, "tolN"), rapid.IntRange(0, 12).Draw(t, "tolM")
+		return LCSCase{Tol: true,
+			As: rapid.SliceOfN(rapid.IntRange(0, 9), n, n).Draw(t, "tolAs"),
+			Bs: rapid.SliceOfN(rapid.IntRange(0, 9), m, m).Draw(t, "tolBs")}
+	}
 	c := genLCSInts(t)
 	if c.Fold {
 		c.Elem = genElem(t, kindsLCSFunc)
@@ -1146,6 +1154,34 @@ func genBigSeq(t *rapid.T) SeqCase {
 		add(start, step, min(n, 280000-total))
 	}
 	return genSeqElem(t, c, true)
+}
+
+// TestC12Conc: concurrent LIS/LNDS calls on private inputs (see ConcSeqCase).
+func TestC12Conc(t *testing.T) {
+	h := vk.Start(t, "C12", "conc")
+	slot := h.Slot()
+	tl := vk.NewTally()
+	rng := h.RNG("conc")
+	rounds := h.Pick(6, 120)
+	for r := 0; r < rounds && !h.Failed(); r++ {
+		c := ConcSeqCase{N: []int{1024, 1500, 3000, 200, 5000, 64}[r%6], Iters: h.Pick(40, 100)}
+		for g := 0; g < 8; g++ {
+			c.Seeds = append(c.Seeds, rng.Uint64())
+		}
+		o := &vk.Obs{}
+		slot.Enter(c)
+		msg := vk.Guard(func() string { return runConcSeq(c, o) })
+		slot.Leave()
+		if msg != "" {
+			p := h.Fail(c, msg)
+			t.Fatalf("VK-VIOLATION property=C12 leg=conc replay=%s\n%s", p, msg)
+		}
+		tl.AddObs(o)
+		if r < 2 {
+			h.Sample(c, o.NT)
+		}
+	}
+	h.MergeTally(tl)
 }
 
 func TestC12LISBig(t *testing.T) {
